@@ -9,3 +9,7 @@ chk("C20", "runtime monitor: exhaustive table comparison against documented voca
 chk("C13", "runtime monitor: differential oracle (RFC 8259 number regex + exact decimal arithmetic cross-checked with math/big.Rat) over exhaustive short strings, exhaustive small-scope pairs and random long numbers",
     "NewNumber's accept/reject decision, String(), LengthOfFractionalPart() and all six comparison methods are compared with an exact reference on every string up to the length bound, every ordered pair of short grammatical numbers, and millions of random long numbers incl. equal-by-shift and last-digit-neighbour pairs. Held = no disagreement on the executions run.",
     "Trusts Go regexp, the 100-line exact decimal reference and math/big; exponents beyond 3000 only probed at fixed points.")
+
+chk("C12", "runtime monitor: differential oracle (encoding/json Valid / streaming Decoder / token tree) + lexeme-stream nesting and span checker over exhaustive short byte strings and generated/mutated documents; scanner-probe coverage",
+    "Every byte string up to the bound over a 31-symbol alphabet and millions of generated/mutated documents are scanned by the real Document in strict and trailing mode; verdict, Len(), lexeme nesting/spans/literal coverage and the rebuilt token tree are compared with encoding/json. H3 probes report the (step function, byte class) pairs actually crossed. Held = no disagreement on the executions run.",
+    "Trusts encoding/json as the RFC 8259 reference; invalid UTF-8 not distinguished; pruning only below prefixes rejected for an offending byte by both sides.")
